@@ -221,7 +221,7 @@ Definition ref_match (st : state) (r : ref) (pr : pref) : Prop :=
   match r, pr with
   | RNone, PNone => True
   | RMod g, PMod m => mc st m = Some g
-  | RName g i, PName m j => mc st m = Some g /\ i = j
+  | RName g i, PName m j => mc st m = Some g /\ i = j /\ exists c es, sc st g = Some (c, es)
   | _, _ => False
   end.
 
@@ -312,7 +312,8 @@ Lemma ref_match_ext : forall st st' r pr, ext st st' -> ref_match st r pr -> ref
 Proof.
   intros st st' r pr E H. destruct r, pr; simpl in *; auto.
   - apply (ext_mc _ _ E). exact H.
-  - destruct H as [H1 H2]. split; [apply (ext_mc _ _ E); exact H1 | exact H2].
+  - destruct H as (H1 & H2 & c & es & H3). split; [apply (ext_mc _ _ E); exact H1 |].
+    split; [exact H2|]. exists c, es. apply (ext_sc _ _ E). exact H3.
 Qed.
 
 Lemma val_match_ext : forall st st' v pv, ext st st' -> val_match st v pv -> val_match st' v pv.
@@ -518,7 +519,8 @@ Qed.
 
 Definition rec_ok (d : disk) (rec : state -> gen -> state * res (list entry)) : Prop :=
   forall st g m st' r, Inv d st -> mc st m = Some g -> rec st g = (st', r) ->
-    Inv d st' /\ ext st st' /\ refs st' = refs st /\ forall es, r = Ok es -> SC (know_st st') m es.
+    Inv d st' /\ ext st st' /\ refs st' = refs st /\
+    forall es, r = Ok es -> SC (know_st st') m es /\ exists c, sc st' g = Some (c, es).
 
 Lemma max3 : forall a b, a <= Nat.max a b /\ b <= Nat.max a b.
 Proof. intros. lia. Qed.
@@ -557,7 +559,7 @@ Proof.
         assert (R : refs st3 = refs st) by congruence.
         destruct r3 as [es3| |]; inversion H; subst; (split; [exact I3|]; split; [exact X|]; split; [exact R|]);
           intros es He; inversion He; subst.
-        destruct (P3 _ eq_refl) as [f3 Hf3]. destruct (P2 _ eq_refl) as [f2 Hf2].
+        destruct (P3 _ eq_refl) as [f3 Hf3]. destruct (P2 _ eq_refl) as [[f2 Hf2] _].
         destruct I3 as [W3 A3].
         pose proof (ext_kle d st2 st' X3 (wf_obj _ W3) A3) as HK.
         exists (Nat.max f2 f3). cbn [pexpand].
@@ -588,7 +590,7 @@ Proof.
   - simpl in H. destruct HI as [W A].
     destruct (sc st g) as [[c0 es0]|] eqn:Es.
     + inversion H; subst. split; [split; auto|]. split; [apply ext_refl|]. split; [reflexivity|].
-      intros es He. inversion He; subst. eapply wf_scope; eauto.
+      intros es He. inversion He; subst. split; [eapply wf_scope; eauto | eauto].
     + destruct (wf_obj _ W _ _ Hm) as [t Ho]. rewrite Ho in H.
       destruct (ag_obj _ _ A _ _ _ Hm Ho) as [c [Hd _]]. rewrite Hd in H.
       destruct (expand d (scope_of f d) st c first_line) as [st1 r1] eqn:E1.
@@ -597,12 +599,13 @@ Proof.
       * destruct (sc st1 g) as [[c2 es2]|] eqn:Es1.
         -- inversion H; subst. split; [exact I1|]. split; [exact X1|]. split; [exact R1|].
            intros es He. inversion He; subst. destruct I1 as [W1 A1].
-           eapply wf_scope; eauto. apply (ext_mc _ _ X1). exact Hm.
+           split; [|eauto]. eapply wf_scope; eauto. apply (ext_mc _ _ X1). exact Hm.
         -- inversion H; subst.
            destruct (add_scope_ok d st1 g m t c es1 I1 (ext_mc _ _ X1 _ _ Hm) (ext_ob _ _ X1 _ _ Ho) Es1 Hd
                        (P1 _ eq_refl)) as (I2 & X2 & R2 & P2).
            split; [exact I2|]. split; [eapply ext_trans; eauto|]. split; [congruence|].
-           intros es He. inversion He; subst. exact P2.
+           intros es He. inversion He; subst. split; [exact P2|].
+           exists c. simpl. rewrite Nat.eqb_refl. reflexivity.
       * inversion H; subst. split; [exact I1|]. split; [exact X1|]. split; [exact R1|]. intros es He. discriminate.
       * inversion H; subst. split; [exact I1|]. split; [exact X1|]. split; [exact R1|]. intros es He. discriminate.
 Qed.
@@ -637,13 +640,14 @@ Proof.
         assert (R : refs st3 = refs st) by congruence.
         destruct r3 as [es| |]; inversion H; subst; (split; [exact I3|]; split; [exact X|]; split; [exact R|]);
           intros rr He; inversion He; subst.
-        destruct (P3 _ eq_refl) as [f3 Hf3].
+        destruct (P3 _ eq_refl) as [[f3 Hf3] [c3 Hs3]].
         exists f3. eexists. unfold presolve.
         destruct K12 as [K12 _]. destruct K23 as [K23 _].
         rewrite (K23 _ _ (K12 _ _ P1)).
         rewrite (know_ex_cached _ _ _ (ext_mc _ _ X3 _ _ P2)).
         rewrite Hf3. split; [reflexivity|].
-        destruct (find_last x es); simpl; auto. split; [apply (ext_mc _ _ X3); exact P2 | reflexivity].
+        destruct (find_last x es); simpl; auto. split; [apply (ext_mc _ _ X3); exact P2 |].
+        split; [reflexivity | eauto].
       * inversion H; subst. split; [exact I2|]. split; [eapply ext_trans; eauto|]. split; [congruence|].
         intros rr He. inversion He; subst. exists 0, PNone. unfold presolve.
         destruct K12 as [K12 _]. rewrite (K12 _ _ P1). rewrite P2. split; reflexivity.
@@ -701,7 +705,7 @@ Proof.
       destruct HI as [W A]. destruct (wf_obj _ W _ _ Hmatch) as [t Ho]. rewrite Ho in H.
       inversion H; subst. split; [split; auto|]. split; [apply ext_refl|].
       intros v tr' He. inversion He; subst. exists 1, (VMod m). split; [reflexivity|exact Hmatch].
-    + destruct pr as [|m|m j]; simpl in Hmatch; try contradiction. destruct Hmatch as [Hm <-].
+    + destruct pr as [|m|m j]; simpl in Hmatch; try contradiction. destruct Hmatch as (Hm & <- & _).
       pose proof HI as [W A]. destruct (wf_obj _ W _ _ Hm) as [t Ho]. rewrite Ho in H.
       destruct (sc st g) as [[c es]|] eqn:Es.
       2:{ inversion H; subst. split; [exact HI|]. split; [apply ext_refl|]. intros v tr' He. discriminate. }
@@ -745,7 +749,7 @@ Proof.
     destruct (scope_of f d st g) as [st1 r1] eqn:E1.
     destruct (scope_of_ok d f _ _ _ _ _ HI Hv E1) as (I1 & X1 & R1 & P1).
     destruct r1 as [es| |]; inversion H; subst; (split; [exact I1|]; split; [exact X1|]); intros l He; inversion He; subst.
-    destruct (P1 _ eq_refl) as [f1 Hf1]. exists f1. simpl. rewrite Hf1. reflexivity.
+    destruct (P1 _ eq_refl) as [[f1 Hf1] _]. exists f1. simpl. rewrite Hf1. reflexivity.
   - inversion H; subst. split; [exact HI|]. split; [apply ext_refl|]. intros l He. inversion He; subst.
     destruct pv; simpl in Hv; try contradiction. subst. exists 0. reflexivity.
 Qed.
@@ -810,7 +814,7 @@ Proof.
         destruct r2 as [es'| |].
         2:{ inversion H; subst. split; [exact I2|]. split; [eapply ext_trans; eauto|]. intros a He. discriminate. }
         2:{ inversion H; subst. split; [exact I2|]. split; [eapply ext_trans; eauto|]. intros a He. discriminate. }
-        destruct (P2 _ eq_refl) as [f2 Hf2].
+        destruct (P2 _ eq_refl) as [[f2 Hf2] [c2 Hs2]].
         pose proof (Inv_kle d _ _ X2 I2) as K12.
         destruct (find_last y' es') as [j|] eqn:Ej.
         2:{ inversion H; subst. split; [exact I2|]. split; [eapply ext_trans; eauto|].
@@ -820,7 +824,7 @@ Proof.
             rewrite (pscope_mono (kle_refl _) m L2 Hf2). rewrite Ej. reflexivity. }
         destruct (chase f d st2 (RName g j) []) as [st3 r3] eqn:E3.
         assert (Hm3 : ref_match st2 (RName g j) (PName m j)).
-        { simpl. split; [apply (ext_mc _ _ X2); exact Hv1 | reflexivity]. }
+        { simpl. split; [apply (ext_mc _ _ X2); exact Hv1 |]. split; [reflexivity | eauto]. }
         destruct (chase_ok _ _ _ _ _ _ _ _ I2 Hm3 E3) as (I3 & X3 & P3).
         destruct r3 as [[v' tr']| |].
         2:{ inversion H; subst. split; [exact I3|]. split; [eapply ext_trans; [exact X1|eapply ext_trans; eauto]|].
@@ -901,7 +905,7 @@ Proof.
       destruct (scope_of_ok d f _ _ _ _ _ I1 P1 E2) as (I2 & X2 & R2 & P2).
       destruct r2 as [es| |]; inversion H; subst; (split; [exact I2|]; split; [eapply ext_trans; eauto|]);
         intros a He; inversion He; subst.
-      destruct (P2 _ eq_refl) as [f2 Hf2]. exists f2. cbn [panswer].
+      destruct (P2 _ eq_refl) as [[f2 Hf2] _]. exists f2. cbn [panswer].
       rewrite (know_ex_cached _ _ _ (ext_mc _ _ X2 _ _ P1)). rewrite Hf2. reflexivity.
     + inversion H; subst. split; [exact I1|]. split; [exact X1|].
       intros a He. inversion He; subst. exists 0. cbn [panswer]. rewrite P1. reflexivity.
@@ -1140,3 +1144,563 @@ Proof.
   - vm_compute. reflexivity.
   - discriminate.
 Qed.
+
+(* ---------------------------------------------------------------------------------------------
+   completeness: with the fuel on which the reference is defined, the long-lived project answers
+   (no Err, no OOF), hence - by soundness - exactly the reference answer
+   --------------------------------------------------------------------------------------------- *)
+
+Lemma Inv_kd : forall d st, Inv d st -> kle (know_st st) (know_disk d).
+Proof. intros d st [W A]. apply agree_kle; assumption. Qed.
+
+Lemma SC_unique : forall d st m es es' f,
+  Inv d st -> SC (know_st st) m es -> pscope (know_disk d) f m = Some es' -> es = es'.
+Proof.
+  intros d st m es es' f HI [f0 H0] H.
+  pose proof (pscope_mono (Inv_kd d st HI) m (Nat.le_max_l f0 f) H0) as A.
+  pose proof (pscope_mono (kle_refl _) m (Nat.le_max_r f0 f) H) as B. congruence.
+Qed.
+
+Lemma get_module_disk : forall d st m st' og,
+  Inv d st -> get_module d st m = (st', og) ->
+  k_ex (know_disk d) m = Some (match og with Some _ => true | None => false end).
+Proof.
+  intros d st m st' og HI H. destruct (get_module_ok _ _ _ _ _ HI H) as (I1 & _ & _ & P1).
+  destruct (Inv_kd d st' I1) as [Hex _]. destruct og as [g|].
+  - apply Hex. eapply know_ex_cached; eauto.
+  - apply Hex. exact P1.
+Qed.
+
+Definition rec_complete (d : disk) (rec : state -> gen -> state * res (list entry))
+           (prec : modname -> option (list entry)) : Prop :=
+  forall st g m es, Inv d st -> mc st m = Some g -> prec m = Some es ->
+    exists st', rec st g = (st', Ok es).
+
+Lemma expand_complete : forall d rec prec, rec_ok d rec -> rec_complete d rec prec ->
+  forall c ln st es, Inv d st -> pexpand (know_disk d) prec c ln = Some es ->
+  exists st', expand d rec st c ln = (st', Ok es).
+Proof.
+  intros d rec prec Hok Hc. induction c as [|b c IH]; intros ln st es HI H.
+  - simpl in H. inversion H; subst. exists st. reflexivity.
+  - assert (Plain : forall e0,
+      match pexpand (know_disk d) prec c (S ln) with None => None | Some es0 => Some (e0 :: es0) end = Some es ->
+      exists st', (let '(st1, r0) := expand d rec st c (S ln) in
+                   match r0 with Ok es1 => (st1, Ok (e0 :: es1)) | OOF => (st1, OOF) | Err => (st1, Err) end)
+                  = (st', Ok es)).
+    { intros e0 H0. destruct (pexpand (know_disk d) prec c (S ln)) as [es0|] eqn:E; [|discriminate].
+      inversion H0; subst. destruct (IH _ _ _ HI E) as [st1 E1]. rewrite E1. eauto. }
+    destruct b as [n a|n m|n m x|m']; cbn [pexpand] in H; cbn [expand].
+    1-3: exact (Plain _ H).
+    clear Plain. destruct (get_module d st m') as [st1 og] eqn:Eg.
+    pose proof (get_module_disk _ _ _ _ _ HI Eg) as Hk. rewrite Hk in H.
+    destruct (get_module_ok _ _ _ _ _ HI Eg) as (I1 & X1 & R1 & P1).
+    destruct og as [g'|].
+    + destruct (prec m') as [es'|] eqn:Ep; [|discriminate].
+      destruct (pexpand (know_disk d) prec c (S ln)) as [es3|] eqn:E3; [|discriminate].
+      inversion H; subst.
+      destruct (Hc _ _ _ _ I1 P1 Ep) as [st2 E2]. rewrite E2.
+      destruct (Hok _ _ _ _ _ I1 P1 E2) as (I2 & _).
+      destruct (IH _ _ _ I2 E3) as [st3 E3']. rewrite E3'. eauto.
+    + apply IH; assumption.
+Qed.
+
+Lemma scope_of_complete : forall d f, rec_complete d (scope_of f d) (pscope (know_disk d) f).
+Proof.
+  intros d. induction f as [|f IH]; intros st g m es HI Hm H; [discriminate|].
+  cbn [scope_of]. destruct HI as [W A].
+  destruct (sc st g) as [[c0 es0]|] eqn:Es.
+  - exists st. f_equal. f_equal. eapply SC_unique; [split; eauto | eapply wf_scope; eauto | exact H].
+  - destruct (wf_obj _ W _ _ Hm) as [t Ho]. rewrite Ho.
+    destruct (ag_obj _ _ A _ _ _ Hm Ho) as [c [Hd _]]. rewrite Hd.
+    simpl in H. rewrite Hd in H. simpl in H.
+    destruct (expand_complete d _ _ (scope_of_ok d f) IH c first_line st es (conj W A) H) as [st1 E1].
+    rewrite E1.
+    destruct (expand_ok _ _ (scope_of_ok d f) _ _ _ _ _ (conj W A) E1) as (I1 & X1 & _).
+    destruct (sc st1 g) as [[c2 es2]|] eqn:Es1.
+    + exists st1. f_equal. f_equal. destruct I1 as [W1 A1].
+      eapply SC_unique with (f := S f); [split; eauto | eapply wf_scope; eauto; apply (ext_mc _ _ X1); exact Hm |].
+      simpl. rewrite Hd. simpl. exact H.
+    + eauto.
+Qed.
+
+Lemma scope_of_total : forall d f st g m es,
+  Inv d st -> mc st m = Some g -> pscope (know_disk d) f m = Some es ->
+  exists st', scope_of f d st g = (st', Ok es) /\ Inv d st' /\ ext st st' /\ refs st' = refs st /\
+              exists c, sc st' g = Some (c, es).
+Proof.
+  intros d f st g m es HI Hm H. destruct (scope_of_complete d f _ _ _ _ HI Hm H) as [st' E].
+  destruct (scope_of_ok d f _ _ _ _ _ HI Hm E) as (I1 & X1 & R1 & P1).
+  exists st'. split; [exact E|]. split; [exact I1|]. split; [exact X1|]. split; [exact R1|].
+  apply P1. reflexivity.
+Qed.
+
+Lemma presolve_unique : forall d st k f f' pr pr',
+  Inv d st -> presolve (know_st st) f k = Some pr -> presolve (know_disk d) f' k = Some pr' -> pr = pr'.
+Proof.
+  intros d st k f f' pr pr' HI H H'.
+  pose proof (presolve_mono (Inv_kd d st HI) k (Nat.le_max_l f f') H) as A.
+  pose proof (presolve_mono (kle_refl _) k (Nat.le_max_r f f') H') as B. congruence.
+Qed.
+
+Lemma resolve_kind_complete : forall d f st k pr,
+  Inv d st -> presolve (know_disk d) f k = Some pr ->
+  exists st' rr, resolve_kind f d st k = (st', Ok rr) /\ Inv d st' /\ ext st st' /\ refs st' = refs st /\
+                 ref_match st' rr pr /\ exists f', presolve (know_st st') f' k = Some pr.
+Proof.
+  intros d f st k pr HI H.
+  assert (Fin : forall st' rr, resolve_kind f d st k = (st', Ok rr) ->
+            exists st'0 rr0, (st', Ok rr) = (st'0, Ok rr0) /\ Inv d st'0 /\ ext st st'0 /\ refs st'0 = refs st /\
+                             ref_match st'0 rr0 pr /\ exists f', presolve (know_st st'0) f' k = Some pr).
+  { intros st' rr E. destruct (resolve_kind_ok _ _ _ _ _ _ HI E) as (I1 & X1 & R1 & P1).
+    destruct (P1 _ eq_refl) as (f1 & pr1 & Hp1 & Hm1).
+    assert (pr1 = pr) by (eapply presolve_unique; eauto). subst pr1.
+    exists st', rr. split; [reflexivity|]. split; [exact I1|]. split; [exact X1|]. split; [exact R1|].
+    split; [exact Hm1|]. exists f1. exact Hp1. }
+  destruct k as [a|m [x|]]; unfold presolve in H; cbn [resolve_kind] in *.
+  - apply Fin. reflexivity.
+  - destruct (get_module d st (m ++ [x])) as [st1 og] eqn:E1.
+    pose proof (get_module_disk _ _ _ _ _ HI E1) as Hk1. rewrite Hk1 in H.
+    destruct (get_module_ok _ _ _ _ _ HI E1) as (I1 & X1 & R1 & P1).
+    destruct og as [g|]; [apply Fin; reflexivity|].
+    destruct (get_module d st1 m) as [st2 og2] eqn:E2.
+    pose proof (get_module_disk _ _ _ _ _ I1 E2) as Hk2. rewrite Hk2 in H.
+    destruct (get_module_ok _ _ _ _ _ I1 E2) as (I2 & X2 & R2 & P2).
+    destruct og2 as [g|]; [|apply Fin; reflexivity].
+    destruct (pscope (know_disk d) f m) as [es|] eqn:Es; [|discriminate].
+    destruct (scope_of_total d f _ _ _ _ I2 P2 Es) as (st3 & E3 & _).
+    rewrite E3 in Fin |- *. apply Fin. reflexivity.
+  - destruct (get_module d st m) as [st1 og] eqn:E1. apply Fin. reflexivity.
+Qed.
+
+Lemma resolve_at_complete : forall d f st g i m c es e pr,
+  Inv d st -> mc st m = Some g -> sc st g = Some (c, es) -> nth_error es i = Some e ->
+  presolve (know_disk d) f (e_kind e) = Some pr ->
+  exists st' rr, resolve_at f d st g i (e_kind e) = (st', Ok rr) /\ Inv d st' /\ ext st st' /\
+                 ref_match st' rr pr.
+Proof.
+  intros d f st g i m c es e pr HI Hm Hs Hn H.
+  assert (Fin : forall st' rr, resolve_at f d st g i (e_kind e) = (st', Ok rr) ->
+            exists st'0 rr0, (st', Ok rr) = (st'0, Ok rr0) /\ Inv d st'0 /\ ext st st'0 /\ ref_match st'0 rr0 pr).
+  { intros st' rr E. destruct (resolve_at_ok _ _ _ _ _ _ _ _ _ _ _ HI Hm Hs Hn E) as (I1 & X1 & P1).
+    destruct (P1 _ eq_refl) as (f1 & pr1 & Hp1 & Hm1).
+    assert (pr1 = pr) by (eapply presolve_unique; eauto). subst pr1.
+    exists st', rr. split; [reflexivity|]. split; [exact I1|]. split; [exact X1|]. exact Hm1. }
+  unfold resolve_at in *. destruct (rf st g i) as [r0|] eqn:Er.
+  - apply Fin. reflexivity.
+  - destruct (resolve_kind_complete d f st (e_kind e) pr HI H) as (st1 & rr & E1 & _).
+    rewrite E1 in Fin |- *. apply Fin. reflexivity.
+Qed.
+
+Lemma pchase_unique : forall d st f f' pr tr x y,
+  Inv d st -> pchase (know_st st) f pr tr = Some x -> pchase (know_disk d) f' pr tr = Some y -> x = y.
+Proof.
+  intros d st f f' pr tr x y HI H H'.
+  pose proof (pchase_mono (Inv_kd d st HI) pr tr (Nat.le_max_l f f') H) as A.
+  pose proof (pchase_mono (kle_refl _) pr tr (Nat.le_max_r f f') H') as B. congruence.
+Qed.
+
+Lemma val_match_fun : forall st v pv pv', val_match st v pv -> pv = pv' -> val_match st v pv'.
+Proof. intros; subst; assumption. Qed.
+
+Lemma chase_complete : forall d f st r tr pr pv tr',
+  Inv d st -> ref_match st r pr -> pchase (know_disk d) f pr tr = Some (pv, tr') ->
+  exists st' v, chase f d st r tr = (st', Ok (v, tr')) /\ Inv d st' /\ ext st st' /\ val_match st' v pv.
+Proof.
+  intros d. induction f as [|f IH]; intros st r tr pr pv tr' HI Hmatch H; [discriminate|].
+  assert (Fin : forall st' v tr1, chase (S f) d st r tr = (st', Ok (v, tr1)) ->
+            exists st'0 v0, (st', Ok (v, tr1)) = (st'0, Ok (v0, tr')) /\ Inv d st'0 /\ ext st st'0 /\ val_match st'0 v0 pv).
+  { intros st' v tr1 E. destruct (chase_ok _ _ _ _ _ _ _ _ HI Hmatch E) as (I1 & X1 & P1).
+    destruct (P1 _ _ eq_refl) as (f1 & pv1 & Hp1 & Hv1).
+    assert (Heq : (pv1, tr1) = (pv, tr')) by (eapply pchase_unique; eauto). inversion Heq; subst.
+    exists st', v. split; [reflexivity|]. split; [exact I1|]. split; [exact X1|]. exact Hv1. }
+  cbn [chase] in *. cbn [pchase] in H. destruct r as [|g|g i].
+  - eapply Fin. reflexivity.
+  - destruct pr as [|m|m j]; simpl in Hmatch; try contradiction.
+    destruct HI as [W A]. destruct (wf_obj _ W _ _ Hmatch) as [t Ho]. rewrite Ho in Fin |- *.
+    eapply Fin. reflexivity.
+  - destruct pr as [|m|m j]; simpl in Hmatch; try contradiction.
+    destruct Hmatch as (Hm & <- & c & es & Hs).
+    pose proof HI as [W A]. destruct (wf_obj _ W _ _ Hm) as [t Ho]. rewrite Ho, Hs in Fin |- *.
+    destruct (pscope (know_disk d) f m) as [es0|] eqn:Es0; [|discriminate].
+    assert (es = es0) by (eapply SC_unique; [exact HI | eapply wf_scope; eauto | exact Es0]). subst es0.
+    destruct (nth_error es i) as [e|] eqn:En; [|discriminate].
+    destruct (e_kind e) as [a|m' x] eqn:Ek.
+    + eapply Fin. reflexivity.
+    + destruct (presolve (know_disk d) f (KImp m' x)) as [pr'|] eqn:Ep; [|discriminate].
+      rewrite <- Ek in Ep.
+      destruct (resolve_at_complete d f st g i m c es e pr' HI Hm Hs En Ep) as (st1 & rr & E1 & I1 & X1 & Hm1).
+      rewrite Ek in E1. rewrite E1 in Fin |- *.
+      destruct (IH _ _ _ _ _ _ I1 Hm1 H) as (st2 & v & E2 & _).
+      rewrite E2 in Fin |- *. eapply Fin. reflexivity.
+Qed.
+
+Lemma attrs_of_complete : forall d f st v pv l,
+  Inv d st -> val_match st v pv -> pattrs (know_disk d) f pv = Some l ->
+  exists st', attrs_of f d st v = (st', Ok l) /\ Inv d st' /\ ext st st'.
+Proof.
+  intros d f st v pv l HI Hv H. destruct v as [|g|a]; destruct pv as [|m|b]; simpl in Hv; try contradiction;
+    cbn [attrs_of]; simpl in H.
+  - inversion H; subst. exists st. split; [reflexivity|]. split; [exact HI|apply ext_refl].
+  - destruct (pscope (know_disk d) f m) as [es|] eqn:Es; [|discriminate]. inversion H; subst.
+    destruct (scope_of_total d f _ _ _ _ HI Hv Es) as (st1 & E1 & I1 & X1 & _).
+    rewrite E1. exists st1. split; [reflexivity|]. split; assumption.
+  - inversion H; subst. exists st. split; [reflexivity|]. split; [exact HI|apply ext_refl].
+Qed.
+
+Lemma entry_value_complete : forall d f st e pv tr,
+  Inv d st -> pentry_value (know_disk d) f e = Some (pv, tr) ->
+  exists st' v, entry_value f d st e = (st', Ok (v, tr)) /\ Inv d st' /\ ext st st' /\ val_match st' v pv.
+Proof.
+  intros d f st e pv tr HI H. unfold pentry_value in H. unfold entry_value.
+  destruct (e_kind e) as [a|m x] eqn:Ek.
+  - inversion H; subst. exists st, (IVClass a). split; [reflexivity|]. split; [exact HI|].
+    split; [apply ext_refl|reflexivity].
+  - destruct (presolve (know_disk d) f (KImp m x)) as [pr|] eqn:Ep; [|discriminate].
+    destruct (resolve_kind_complete d f st _ pr HI Ep) as (st1 & rr & E1 & I1 & X1 & _ & Hm1 & _).
+    rewrite E1.
+    destruct (chase_complete d f _ _ _ _ _ _ I1 Hm1 H) as (st2 & v & E2 & I2 & X2 & Hv).
+    rewrite E2. exists st2, v. split; [reflexivity|]. split; [exact I2|].
+    split; [eapply ext_trans; eauto|exact Hv].
+Qed.
+
+Lemma query_complete : forall d f st es q a,
+  Inv d st -> pquery (know_disk d) f es q = Some a ->
+  exists st', query_impl f d st es q = (st', Ok a) /\ Inv d st'.
+Proof.
+  intros d f st es q a HI H. destruct q as [|uses|x y|x]; cbn [pquery] in H; cbn [query_impl].
+  - inversion H; subst. eauto.
+  - inversion H; subst. eauto.
+  - destruct (find_last x es) as [i|] eqn:Ef; [|inversion H; subst; eauto].
+    destruct (nth_error es i) as [e|] eqn:En; [|discriminate].
+    destruct (pentry_value (know_disk d) f e) as [[pv tr]|] eqn:Ev; [|discriminate].
+    destruct (entry_value_complete d f st e pv tr HI Ev) as (st1 & v & E1 & I1 & X1 & Hv1).
+    rewrite E1. destruct y as [y'|].
+    + destruct v as [|g|a0]; destruct pv as [|m|b]; simpl in Hv1; try contradiction.
+      * inversion H; subst. eauto.
+      * destruct (pscope (know_disk d) f m) as [es'|] eqn:Es; [|discriminate].
+        destruct (scope_of_total d f _ _ _ _ I1 Hv1 Es) as (st2 & E2 & I2 & X2 & _ & c2 & Hs2).
+        rewrite E2. destruct (find_last y' es') as [j|] eqn:Ej; [|inversion H; subst; eauto].
+        destruct (pchase (know_disk d) f (PName m j) []) as [[pv' tr']|] eqn:Ec; [|discriminate].
+        assert (Hm3 : ref_match st2 (RName g j) (PName m j)).
+        { simpl. split; [apply (ext_mc _ _ X2); exact Hv1 |]. split; [reflexivity | eauto]. }
+        destruct (chase_complete d f _ _ _ _ _ _ I2 Hm3 Ec) as (st3 & v' & E3 & I3 & X3 & Hv3).
+        rewrite E3.
+        destruct (pattrs (know_disk d) f pv') as [l|] eqn:Ea; [|discriminate]. inversion H; subst.
+        destruct (attrs_of_complete d f _ _ _ _ I3 Hv3 Ea) as (st4 & E4 & I4 & X4).
+        rewrite E4. unfold lift_names. simpl. eauto.
+      * inversion H; subst. eauto.
+    + destruct (pattrs (know_disk d) f pv) as [l|] eqn:Ea; [|discriminate]. inversion H; subst.
+      destruct (attrs_of_complete d f _ _ _ _ I1 Hv1 Ea) as (st2 & E2 & I2 & X2).
+      rewrite E2. unfold lift_names. simpl. eauto.
+  - destruct (find_last x es) as [i|] eqn:Ef; [|inversion H; subst; eauto].
+    destruct (nth_error es i) as [e|] eqn:En; [|discriminate].
+    destruct (pentry_value (know_disk d) f e) as [[pv tr]|] eqn:Ev; [|discriminate].
+    destruct (entry_value_complete d f st e pv tr HI Ev) as (st1 & v & E1 & I1 & X1 & Hv1).
+    rewrite E1. simpl in H. inversion H; subst. eauto.
+Qed.
+
+Lemma serve_complete : forall d f st rq a,
+  Inv d st -> ref_answer f d rq = Some a -> exists st', serve f d st rq = (st', Ok a).
+Proof.
+  intros d f st rq a HI H. unfold ref_answer in H. destruct rq as [c q|m]; cbn [panswer] in H; cbn [serve].
+  - destruct (pexpand (know_disk d) (pscope (know_disk d) f) c first_line) as [es|] eqn:Ee; [|discriminate].
+    destruct (expand_complete d _ _ (scope_of_ok d f) (scope_of_complete d f) c first_line st es HI Ee) as [st1 E1].
+    rewrite E1.
+    destruct (expand_ok _ _ (scope_of_ok d f) _ _ _ _ _ HI E1) as (I1 & _).
+    destruct (query_complete d f st1 es q a I1 H) as (st2 & E2 & _). eauto.
+  - destruct (get_module d st m) as [st1 og] eqn:E1.
+    pose proof (get_module_disk _ _ _ _ _ HI E1) as Hk. rewrite Hk in H.
+    destruct (get_module_ok _ _ _ _ _ HI E1) as (I1 & X1 & R1 & P1).
+    destruct og as [g|].
+    + destruct (pscope (know_disk d) f m) as [es|] eqn:Es; [|discriminate]. simpl in H. inversion H; subst.
+      destruct (scope_of_total d f _ _ _ _ I1 P1 Es) as (st2 & E2 & _). rewrite E2. eauto.
+    + inversion H; subst. eauto.
+Qed.
+
+Lemma request_complete : forall d f st rq a,
+  wf st -> weak d st -> ref_answer f d rq = Some a ->
+  exists st', request Repaired f d st rq = (st', Ok a).
+Proof.
+  intros d f st rq a W Wk H. unfold request. apply serve_complete; [|exact H]. apply check_ok; assumption.
+Qed.
+
+Definition complete_obs (f : nat) (o : obs) : Prop :=
+  match o with
+  | (d, rq, r) => forall a, ref_answer f d rq = Some a -> r = Ok a
+  end.
+
+Lemma step_complete : forall f w o w' os,
+  good w -> step Repaired f w o = (w', os) -> Forall (complete_obs f) os.
+Proof.
+  intros f w o w' os (W & Wk & Hle) H. destruct o as [m c|m|rq]; simpl in H.
+  - inversion H; subst. constructor.
+  - destruct (dlookup (w_disk w) m) as [[t0 c0]|]; inversion H; subst; constructor.
+  - destruct (request Repaired f (w_disk w) (w_state w) rq) as [st' r] eqn:Er.
+    inversion H; subst. constructor; [|constructor].
+    intros a Ha. destruct (request_complete _ _ _ _ _ W Wk Ha) as [st2 E2].
+    rewrite E2 in Er. inversion Er; subst. reflexivity.
+Qed.
+
+Lemma run_complete : forall f ops w w' os,
+  good w -> run Repaired f w ops = (w', os) -> Forall (complete_obs f) os.
+Proof.
+  intros f. induction ops as [|o ops IH]; intros w w' os G H; simpl in H.
+  - inversion H; subst. constructor.
+  - destruct (step Repaired f w o) as [w1 o1] eqn:E1.
+    destruct (run Repaired f w1 ops) as [w2 o2] eqn:E2.
+    inversion H; subst.
+    destruct (step_good _ _ _ _ _ G E1) as [G1 _].
+    apply Forall_app. split; [exact (step_complete _ _ _ _ _ G E1) | exact (IH _ _ _ G1 E2)].
+Qed.
+
+(* full strength: with the fuel on which the reference answer is defined, every request of every
+   history is answered, and answered by exactly the reference answer; so is a brand-new project *)
+Theorem cache_transparent_full : forall f ops d rq r a,
+  In (d, rq, r) (snd (run Repaired f init_world ops)) ->
+  ref_answer f d rq = Some a -> r = Ok a /\ fresh f d rq = Ok a.
+Proof.
+  intros f ops d rq r a Hin Ha. split.
+  - destruct (run Repaired f init_world ops) as [w' os] eqn:E. simpl in Hin.
+    pose proof (run_complete _ _ _ _ _ good_init E) as F. rewrite Forall_forall in F.
+    apply (F _ Hin a Ha).
+  - unfold fresh.
+    assert (Wk : weak d empty_state) by (intros m g t Hm; discriminate).
+    destruct (request_complete _ _ _ _ _ wf_empty Wk Ha) as [st' E]. rewrite E. reflexivity.
+Qed.
+
+(* ---------------------------------------------------------------------------------------------
+   the stated fuel suffices: on an acyclic (ranked) disk the reference answer is defined with
+   fuel R + 1, R a bound on the ranks
+   --------------------------------------------------------------------------------------------- *)
+
+Section Total.
+  Variable d : disk.
+  Variable rk : modname -> nat.
+  Variable R : nat.
+  Hypothesis Hrk : ranked d rk.
+  Hypothesis HR : rank_bound d rk R.
+
+  Let K := know_disk d.
+
+  Lemma kd_ex : forall m, k_ex K m = Some (on_disk d m).
+  Proof. reflexivity. Qed.
+
+  Definition kind_ok (n : nat) (k : ekind) : Prop :=
+    match k with
+    | KDef _ => True
+    | KImp m _ => on_disk d m = true -> rk m < n
+    end.
+
+  Definition targets_below (n : nat) (c : content) : Prop :=
+    forall b m', In b c -> In m' (targets_of b) -> on_disk d m' = true -> rk m' < n.
+
+  Lemma pexpand_total : forall rec n c ln,
+    targets_below n c ->
+    (forall m', on_disk d m' = true -> rk m' < n -> exists es, rec m' = Some es) ->
+    exists es, pexpand K rec c ln = Some es /\ Forall (fun e => kind_ok n (e_kind e)) es.
+  Proof.
+    intros rec n. induction c as [|b c IH]; intros ln Ht Hrec.
+    - exists []. split; [reflexivity|constructor].
+    - assert (Ht' : targets_below n c) by (intros b0 m0 Hb; apply Ht; right; exact Hb).
+      destruct (IH (S ln) Ht' Hrec) as (es & He & Hk).
+      destruct b as [n0 a|n0 m|n0 m x|m']; cbn [pexpand].
+      + rewrite He. eexists. split; [reflexivity|]. constructor; [exact I|exact Hk].
+      + rewrite He. eexists. split; [reflexivity|]. constructor; [|exact Hk].
+        simpl. intros Ho. apply (Ht (BImport n0 m) m); simpl; auto.
+      + rewrite He. eexists. split; [reflexivity|]. constructor; [|exact Hk].
+        simpl. intros Ho. apply (Ht (BFrom n0 m x) m); simpl; auto.
+      + rewrite kd_ex. destruct (on_disk d m') eqn:Eo.
+        * assert (Hlt : rk m' < n) by (apply (Ht (BStar m') m'); simpl; auto).
+          destruct (Hrec m' Eo Hlt) as [es' Hes']. rewrite Hes', He. eexists. split; [reflexivity|].
+          apply Forall_app. split; [|exact Hk].
+          unfold star_entries. apply Forall_forall. intros e Hin. apply in_map_iff in Hin.
+          destruct Hin as [x [<- _]]. simpl. intros _. exact Hlt.
+        * exists es. split; [exact He|exact Hk].
+  Qed.
+
+  Lemma content_targets : forall m t c, dlookup d m = Some (t, c) -> targets_below (rk m) c.
+  Proof. intros m t c Hd b m' Hb Hm' Ho. eapply Hrk; eauto. Qed.
+
+  Lemma pscope_total : forall f m, on_disk d m = true -> rk m < f ->
+    exists es, pscope K f m = Some es /\ Forall (fun e => kind_ok (rk m) (e_kind e)) es.
+  Proof.
+    induction f as [|f IH]; intros m Ho Hlt; [lia|].
+    unfold on_disk in Ho. destruct (dlookup d m) as [[t c]|] eqn:Hd; [|discriminate].
+    cbn [pscope].
+    assert (Hct : k_ct K m = Some c) by (unfold K, know_disk; simpl; rewrite Hd; reflexivity).
+    rewrite Hct. apply pexpand_total.
+    - eapply content_targets. exact Hd.
+    - intros m' Ho' Hlt'. destruct (IH m' Ho' ltac:(lia)) as (es & He & _). eauto.
+  Qed.
+
+  Lemma pscope_same : forall f f' m es es', pscope K f m = Some es -> pscope K f' m = Some es' -> es = es'.
+  Proof.
+    intros f f' m es es' H H'.
+    pose proof (pscope_mono (kle_refl K) m (Nat.le_max_l f f') H) as A.
+    pose proof (pscope_mono (kle_refl K) m (Nat.le_max_r f f') H') as B. congruence.
+  Qed.
+
+  Lemma find_last_from_lt : forall x es i acc j,
+    find_last_from x es i acc = Some j -> acc = Some j \/ (i <= j < i + length es).
+  Proof.
+    intros x. induction es as [|e es IH]; intros i acc j H; simpl in H.
+    - left. exact H.
+    - apply IH in H. destruct H as [H|H].
+      + destruct (N.eqb (e_name e) x).
+        * inversion H; subst. right. simpl. lia.
+        * left. exact H.
+      + right. simpl. lia.
+  Qed.
+
+  Lemma find_last_lt : forall x es j, find_last x es = Some j -> j < length es.
+  Proof.
+    intros x es j H. apply find_last_from_lt in H. destruct H as [H|H]; [discriminate|lia].
+  Qed.
+
+  Definition pref_ok (n : nat) (pr : pref) : Prop :=
+    match pr with
+    | PNone => True
+    | PMod m => on_disk d m = true
+    | PName m j => on_disk d m = true /\ rk m < n /\ exists f0 es0, pscope K f0 m = Some es0 /\ j < length es0
+    end.
+
+  Lemma presolve_total : forall n f k, kind_ok n k -> n <= f ->
+    exists pr, presolve K f k = Some pr /\ pref_ok n pr.
+  Proof.
+    intros n f k Hk Hle. destruct k as [a|m [x|]]; unfold presolve.
+    - exists PNone. split; [reflexivity|exact I].
+    - rewrite kd_ex. destruct (on_disk d (m ++ [x])) eqn:E1.
+      + exists (PMod (m ++ [x])). split; [reflexivity|exact E1].
+      + rewrite kd_ex. destruct (on_disk d m) eqn:E2.
+        * simpl in Hk. specialize (Hk E2).
+          destruct (pscope_total f m E2 ltac:(lia)) as (es & He & _). rewrite He.
+          destruct (find_last x es) as [j|] eqn:Ef.
+          -- exists (PName m j). split; [reflexivity|]. simpl. split; [exact E2|]. split; [exact Hk|].
+             exists f, es. split; [exact He|]. eapply find_last_lt; eauto.
+          -- exists PNone. split; [reflexivity|exact I].
+        * exists PNone. split; [reflexivity|exact I].
+    - rewrite kd_ex. destruct (on_disk d m) eqn:E1.
+      + exists (PMod m). split; [reflexivity|exact E1].
+      + exists PNone. split; [reflexivity|exact I].
+  Qed.
+
+  Definition val_ok (v : pval) : Prop :=
+    match v with VMod m => on_disk d m = true | _ => True end.
+
+  Lemma pchase_total : forall f n pr tr, pref_ok n pr -> n + 1 <= f ->
+    exists v tr', pchase K f pr tr = Some (v, tr') /\ val_ok v.
+  Proof.
+    induction f as [|f IH]; intros n pr tr Hp Hle; [lia|].
+    cbn [pchase]. destruct pr as [|m|m j]; simpl in Hp.
+    - exists VNone, tr. split; [reflexivity|exact I].
+    - exists (VMod m), (tr ++ [(m, module_line)]). split; [reflexivity|exact Hp].
+    - destruct Hp as (Ho & Hlt & f0 & es0 & He0 & Hj).
+      destruct (pscope_total f m Ho ltac:(lia)) as (es & He & Hk). rewrite He.
+      assert (es0 = es) by (eapply pscope_same; eauto). subst es0.
+      destruct (nth_error es j) as [e|] eqn:En; [|apply nth_error_None in En; lia].
+      assert (Hke : kind_ok (rk m) (e_kind e)).
+      { rewrite Forall_forall in Hk. apply Hk. eapply nth_error_In; eauto. }
+      destruct (e_kind e) as [a|m' x] eqn:Ek.
+      + eexists _, _. split; [reflexivity|exact I].
+      + destruct (presolve_total (rk m) f (KImp m' x) Hke ltac:(lia)) as (pr' & Hp' & Hok').
+        rewrite Hp'. apply (IH (rk m)); [exact Hok'|lia].
+  Qed.
+
+  Lemma pattrs_total : forall f v, val_ok v -> R <= f -> exists l, pattrs K f v = Some l.
+  Proof.
+    intros f v Hv Hle. destruct v as [|m|a]; simpl; eauto.
+    simpl in Hv. destruct (pscope_total f m Hv ltac:(pose proof (HR m Hv); lia)) as (es & He & _).
+    rewrite He. simpl. eauto.
+  Qed.
+
+  Lemma pentry_value_total : forall f e, kind_ok R (e_kind e) -> R + 1 <= f ->
+    exists v tr, pentry_value K f e = Some (v, tr) /\ val_ok v.
+  Proof.
+    intros f e Hk Hle. unfold pentry_value. destruct (e_kind e) as [a|m x] eqn:Ek.
+    - eexists _, _. split; [reflexivity|exact I].
+    - destruct (presolve_total R f (KImp m x) Hk ltac:(lia)) as (pr & Hp & Hok). rewrite Hp.
+      apply (pchase_total f R); assumption.
+  Qed.
+
+  Lemma pquery_total : forall f es q, Forall (fun e => kind_ok R (e_kind e)) es -> R + 1 <= f ->
+    exists a, pquery K f es q = Some a.
+  Proof.
+    intros f es q Hk Hle. rewrite Forall_forall in Hk. destruct q as [|uses|x y|x]; cbn [pquery]; eauto.
+    - destruct (find_last x es) as [i|] eqn:Ef; [|eauto].
+      pose proof (find_last_lt _ _ _ Ef) as Hi.
+      destruct (nth_error es i) as [e|] eqn:En; [|apply nth_error_None in En; lia].
+      destruct (pentry_value_total f e (Hk _ (nth_error_In _ _ En)) Hle) as (v & tr & Hv & Hvo).
+      rewrite Hv. destruct y as [y'|].
+      + destruct v as [|m|a]; eauto. simpl in Hvo.
+        destruct (pscope_total f m Hvo ltac:(pose proof (HR m Hvo); lia)) as (es' & He' & _). rewrite He'.
+        destruct (find_last y' es') as [j|] eqn:Ej; [|eauto].
+        assert (Hp : pref_ok R (PName m j)).
+        { simpl. split; [exact Hvo|]. split; [apply HR; exact Hvo|]. exists f, es'. split; [exact He'|].
+          eapply find_last_lt; eauto. }
+        destruct (pchase_total f R (PName m j) [] Hp Hle) as (v' & tr' & Hc & Hvo').
+        rewrite Hc. destruct (pattrs_total f v' Hvo' ltac:(lia)) as [l Hl]. rewrite Hl. simpl. eauto.
+      + destruct (pattrs_total f v Hvo ltac:(lia)) as [l Hl]. rewrite Hl. simpl. eauto.
+    - destruct (find_last x es) as [i|] eqn:Ef; [|eauto].
+      pose proof (find_last_lt _ _ _ Ef) as Hi.
+      destruct (nth_error es i) as [e|] eqn:En; [|apply nth_error_None in En; lia].
+      destruct (pentry_value_total f e (Hk _ (nth_error_In _ _ En)) Hle) as (v & tr & Hv & Hvo).
+      rewrite Hv. simpl. eauto.
+  Qed.
+
+  Theorem ref_answer_total : forall rq, exists a, ref_answer (R + 1) d rq = Some a.
+  Proof.
+    intros rq. unfold ref_answer. fold K. destruct rq as [c q|m]; cbn [panswer].
+    - assert (Ht : targets_below R c) by (intros b m' _ _ Ho; apply HR; exact Ho).
+      destruct (pexpand_total (pscope K (R + 1)) R c first_line Ht) as (es & He & Hk).
+      { intros m' Ho Hlt. destruct (pscope_total (R + 1) m' Ho ltac:(lia)) as (es & He & _). eauto. }
+      rewrite He. apply pquery_total; [exact Hk|lia].
+    - rewrite kd_ex. destruct (on_disk d m) eqn:Eo; [|eauto].
+      destruct (pscope_total (R + 1) m Eo ltac:(pose proof (HR m Eo); lia)) as (es & He & _).
+      rewrite He. simpl. eauto.
+  Qed.
+End Total.
+
+(* decidable versions of the acyclicity hypotheses (used by the examples and by the harness filter) *)
+Definition rankedb (d : disk) (rk : modname -> nat) : bool :=
+  forallb (fun kv : modname * (mtime * content) =>
+             forallb (fun b => forallb (fun m' => negb (on_disk d m') || Nat.ltb (rk m') (rk (fst kv)))
+                                       (targets_of b))
+                     (snd (snd kv))) d.
+
+Definition rank_boundb (d : disk) (rk : modname -> nat) (R : nat) : bool :=
+  forallb (fun kv : modname * (mtime * content) => Nat.ltb (rk (fst kv)) R) d.
+
+Lemma rankedb_sound : forall d rk, rankedb d rk = true -> ranked d rk.
+Proof.
+  intros d rk H m t c b m' Hd Hb Hm' Ho. unfold rankedb in H. rewrite forallb_forall in H.
+  apply alookup_In_mod in Hd. specialize (H _ Hd). simpl in H.
+  rewrite forallb_forall in H. specialize (H _ Hb). rewrite forallb_forall in H. specialize (H _ Hm').
+  rewrite Ho in H. simpl in H. apply Nat.ltb_lt in H. exact H.
+Qed.
+
+Lemma rank_boundb_sound : forall d rk R, rank_boundb d rk R = true -> rank_bound d rk R.
+Proof.
+  intros d rk R H m Ho. unfold on_disk in Ho. destruct (dlookup d m) as [v|] eqn:Hd; [|discriminate].
+  apply alookup_In_mod in Hd. unfold rank_boundb in H. rewrite forallb_forall in H.
+  specialize (H _ Hd). simpl in H. apply Nat.ltb_lt in H. exact H.
+Qed.
+
+(* acyclic projects: unconditional equality, with an explicit fuel bound *)
+Theorem cache_transparent_acyclic : forall f ops d rq r rk R,
+  In (d, rq, r) (snd (run Repaired f init_world ops)) ->
+  ranked d rk -> rank_bound d rk R -> R + 1 <= f ->
+  exists a, ref_answer f d rq = Some a /\ r = Ok a /\ fresh f d rq = Ok a.
+Proof.
+  intros f ops d rq r rk R Hin Hrk HR Hle.
+  destruct (ref_answer_total d rk R Hrk HR rq) as [a Ha].
+  assert (Ha' : ref_answer f d rq = Some a).
+  { unfold ref_answer in *. eapply panswer_mono; [apply kle_refl | exact Hle | exact Ha]. }
+  exists a. split; [exact Ha'|]. eapply cache_transparent_full; eauto.
+Qed.
+
+Definition f23_rank (m : modname) : nat :=
+  match m with
+  | [1%N] => 2
+  | [2%N] => 1
+  | _ => 0
+  end.
